@@ -229,7 +229,8 @@ func genOidcJSON(r *Run, full bool, wild bool) J {
 		set("authorization_uri", []any{"https://idp/auth", "https://idp/auth?x=1"}, []any{"", "://bad", "http://[::1", "/relative"})
 		set("token_uri", []any{"https://idp/token"}, []any{"", "%zz"})
 	}
-	set("callback_uri", []any{"https://app/callback", "https://app/cb?x=1", "https://app:8443/oauth/callback"}, []any{"https://app/", "https://app", "", "%gh", "/only/path", "https://app/logout"})
+	set("callback_uri", []any{"https://app/callback", "https://app/cb?x=1", "https://app:8443/oauth/callback", "https://app/callback#frag"},
+		[]any{"https://app/", "https://app", "", "%gh", "/only/path", "https://app/logout", "https://app/#/oauth/callback", "https://app#/cb", "https://app/callback#state?next=%zz", "https://app/?cb=1#/x"})
 	set("client_id", []any{"client", "my-client"}, []any{"cli:ent", ""})
 	if full || rng.Intn(2) == 0 {
 		switch {
@@ -456,7 +457,7 @@ func directedOverrideDocs() []any {
 		{}, {"logout": J{"path": "/oauth"}}, {"logout": J{"path": "/oauth", "redirect_uri": "https://idp/x"}}, {"logout": J{"redirect_uri": "https://idp/x"}},
 		{"callback_uri": "https://app/session"}, {"callback_uri": "https://app/session", "logout": J{"redirect_uri": "https://idp/x"}},
 		{"callback_uri": "https://app/session?x=1"}, {"callback_uri": "https://other/session/"}, {"callback_uri": "https://app/"}, {"callback_uri": "https://app"},
-		{"callback_uri": "%gh"}, {"logout": J{"path": "/"}}, {"logout": J{"path": ""}}, {"logout": J{}}, {"client_id": "a:b"}, {"client_id": ""},
+		{"callback_uri": "%gh"}, {"callback_uri": "https://app/#/oauth/callback"}, {"callback_uri": "https://app/cb#state?next=%zz"}, {"logout": J{"path": "/"}}, {"logout": J{"path": ""}}, {"logout": J{}}, {"client_id": "a:b"}, {"client_id": ""},
 		{"id_token": J{"header": ""}}, {"id_token": J{"preamble": "Token"}}, {"access_token": J{"header": ""}}, {"access_token": J{"header": "x-at"}},
 		{"scopes": []string{}}, {"scopes": []string{"email"}}, {"scopes": []string{"openid"}}, {"scopes": []string{"openid_connect"}}, {"scopes": []string{"myopenid", "email"}},
 		{"scopes": []string{"OPENID"}}, {"scopes": []string{"https://idp/openid.read"}}, {"authorization_uri": ""}, {"authorization_uri": "://bad"},
